@@ -325,6 +325,11 @@ func (b *bufferWriter) Write(buf []byte) (int, error) {
 
 // WriteHeader sets rw.Code.
 func (b *bufferWriter) WriteHeader(code int) {
+	if code >= 100 && code <= 199 && code != http.StatusSwitchingProtocols {
+		// An informational response (e.g. 103 Early Hints) is not the status of the response:
+		// the final one is still to come, explicitly or implied by the first Write.
+		return
+	}
 	b.code = code
 }
 
